@@ -15,6 +15,7 @@ CONSTANTS
   RetireById = TRUE
   RelOnRefusal = TRUE
   CtxSelect = TRUE
+  CapRegroup = TRUE
 SPECIFICATION FairSpecSilentUpstream
 INVARIANTS TypeOK
 PROPERTIES CancelledLeaves
